@@ -67,6 +67,8 @@ class GQ:
         return self.re * self.re + self.im * self.im
 
     def __eq__(self, o):
+        if o is None or isinstance(o, str):
+            return False
         o = GQ.of(o)
         return self.re == o.re and self.im == o.im
 
